@@ -95,6 +95,16 @@ def check(run):
                 "lock meta_get", "lock root", "lock leaves_set", "lock get_leaf 0x0",
                 f"lock set_leaves_from 0x1 {treegen.vlist([treegen.val(rng) for _ in range(2)])}", "lock meta_get", "lock root", "lock leaves_set"]
         seqs.append(seq)
+    # the constructors on configuration buffers: documents with trailing NULs / whitespace / a BOM, empty and broken ones
+    import json as _json
+    cfgs = [b"{}", b"{}\x00", b"{}\x00\x00", b"{} ", b" {}", b"{}\n", b"", b"\x00", b"{", b"null", b"[]", b'{"tree_config":{}}', b'{"tree_config":{}}\x00',
+            b"\xef\xbb\xbf{}", b"{}}", b'{"a":1}', b"\xff\xfe"]
+    for c in cfgs:
+        try:
+            _json.loads(c.decode("utf-8")); exp = "ok"
+        except Exception:
+            exp = "err"
+        seqs.append([f"lock newcfg {c.hex() or '-'} {exp}", "lock root", "lock leaves_set", f"lock set_next {hex(treegen.val(rng))}", "lock root"])
     clean = [[l for l in s if not pm_defect(l)] for s in seqs]
     run.differential("ffi-lockstep-tree", clean, canon=canon)
     run.differential("ffi-lockstep-tree-defect-region", seqs, canon=canon, classify=classify)
